@@ -25,11 +25,18 @@ MANIFEST = {
              'exhaustive over a 10-operation alphabet, random long histories with derived Buses, file mutation at every point, malformed keys, '
              'write/reopen round trips, the inputs of the five repaired defects as regression strata; kernel level: _loaded/_last_accessed/'
              'store read calls after every step, Bus._store_reader with a stub.'),
-    'note': ('partial. One known finding remains: integer column labels come back as strings from an SQLite store (format limitation). '
+    'note': ('partial. Known findings: integer column labels come back as strings from an SQLite store (format limitation); Bus.dtypes raises '
+             'once loaded Frames have column indexes of different depth. '
              'Observed, not proved: the byte codecs (csv/tsv/pickle/sqlite are oracles; their fidelity is sampled by the round-trip stratum), '
              'Series/Index key resolution (modelled in resolve, tied by the correspondence), mtime granularity (the harness forces distinct '
              'integral mtimes with os.utime), the window between the coherence check and the lazy read. Optional formats (xlsx, hdf5, '
-             'parquet) are absent here and not exercised. roll/shift/relabel/equals and hierarchical Bus labels are not modelled.'),
+             'parquet) are absent here and not exercised (from_/to_xlsx, hdf5, zip_parquet and the include_*_name branches of '
+             'Store.get_field_names_and_dtypes only they use are never reached). The descriptors (shapes, nbytes, mloc, status, dtypes, '
+             'index, len/shape/size/ndim/dtype, reversed, in, repr), Bus.equals, rename, roll(include_index=True), the constructors '
+             'from_items/from_dict, StoreConfigMap.from_frames / StoreConfig.from_frame, StoreConfigMap validation and the worker-pool read/write '
+             'paths are exercised and checked on the Python side (rename/roll also against M and S as a reindex); they are not part of the Coq '
+             'model beyond that. relabel*, rehierarch, shift, roll(include_index=False) (they detach labels from the store) and hierarchical '
+             'Bus labels are outside the property and not exercised. StoreConfigHE hashing/equality is not exercised.'),
     'technique': 'forward simulation M ~ S over operation histories (Coq), differential histories on real store files',
 }
 PROPERTY_FILES = ['Properties/C17.v']
@@ -45,7 +52,10 @@ RULE = ('a case is one HISTORY: a store of 2..6 small Frames (9 kinds: string/in
         'histories of length 3 x max_persist None,1,2 quick / length 4 x None,1,2,3 thorough, over a fixed 10-operation alphabet on 3 labels), '
         'random (online generation from the current labels incl. derived Buses, get/iter_element/sort_values and per-label configurations '
         'with any max_persist), stale (file touched / replaced by a file with OTHER Frames under the same labels / deleted at every point, the new mtime both newer and OLDER than the recorded one), wide-slice (5..7 labels, max_persist 2..3: one or two single loads, then iloc[a:b] / loc[x:y] / head / tail needing more loads than max_persist, then every label read back, the still-loaded ones first; all 5104 shapes thorough, 240 sampled quick, two thirds of them shapes where a loaded Frame is evicted and re-instated mid-call), pickle-classes (a zip-pickle store mixing Frame / FrameGO / FrameHE members, multi-label selections with max_persist None/2/3/4: class and equals(compare_class/dtype/name) of every served Frame against the eager single-label load, a served FrameGO is grown and later answers must not change), malformed keys, kernel (private _loaded/_last_accessed '
-        'and the read calls reaching the store), Bus._store_reader against a stub, write/reopen round trip with full Frame literals (also crossed: 4 formats x label kinds str/int/date/tuple/None through label_encoder/decoder x one StoreConfig vs a per-label StoreConfigMap with differing index_depth/columns_depth/include_index), one '
+        'and the read calls reaching the store), Bus._store_reader against a stub, write/reopen round trip with full Frame literals (also crossed: 4 formats x label kinds str/int/date/tuple/None through label_encoder/decoder x one StoreConfig vs a per-label StoreConfigMap with differing index_depth/columns_depth/include_index), '
+        'init (the public constructor Bus(series, store=, max_persist=) on a Series already holding Frames: refused iff more are held '
+        'than max_persist, then a short history), constructors (from_frames/from_items/from_dict x library-derived configurations x worker '
+        'pools, with Bus.equals and StoreConfigMap validation), the descriptors and rename/roll inside the random histories; one '
         'regression stratum per repaired defect (the former witness inputs, specification = the correct behaviour). Non-trivial: max_persist '
         'active or the stale file actually refused a read; distinct = distinct (store, max_persist, history).')
 ASSUMPTIONS = [
@@ -429,10 +439,11 @@ OPTIONAL = {'xlsx': ('xlsxwriter', '.xlsx'), 'hdf5': ('tables', '.h5'), 'zip_par
 UNKNOWN_LABEL = 'zz'        # a label no store has (rank 99)
 
 # frame kinds -> (index_depth, columns_depth, include_index): the StoreConfig needed to read them back
-KIND_CFG = {
-    'str_idx': (1, 1, True), 'mixed': (1, 1, True), 'int_idx': (1, 1, True), 'one': (1, 1, True), 'wide': (1, 1, True),
-    'int_cols': (1, 1, True),
-    'auto': (0, 1, False), 'ih_idx': (2, 1, True), 'ih_cols': (1, 2, True),
+KIND_CFG = {   # kind -> (index_depth, columns_depth, include_index, include_columns)
+    'str_idx': (1, 1, True, True), 'mixed': (1, 1, True, True), 'int_idx': (1, 1, True, True), 'one': (1, 1, True, True),
+    'wide': (1, 1, True, True), 'int_cols': (1, 1, True, True),
+    'auto': (0, 1, False, True), 'ih_idx': (2, 1, True, True), 'ih_cols': (1, 2, True, True),
+    'auto_cols': (1, 0, True, False), 'auto_both': (0, 0, False, False),
 }
 KINDS_BY_CLASS = {}
 for _k, _c in KIND_CFG.items():
@@ -472,6 +483,10 @@ def make_frame(kind, label, v, rng):
         return sf.Frame.from_records([(v, rng.randrange(-8, 8) / 2)], columns=('x', 'y'), index=(10,), name=label)
     if kind == 'one':
         return sf.Frame.from_records([(v,)], columns=('x',), index=('p',), name=label)
+    if kind == 'auto_cols':
+        return sf.Frame.from_records([(v, r()), (r(), r())], index=('p', 'q'), name=label)
+    if kind == 'auto_both':
+        return sf.Frame.from_records([(v, 'a', r()), (r(), 'b', r())], name=label)
     if kind == 'int_cols':
         return sf.Frame.from_records([(v, r()), (r(), r())], columns=(7, 8), index=('p', 'q'), name=label)
     if kind == 'wide':
@@ -492,8 +507,8 @@ def make_frame(kind, label, v, rng):
 
 def store_config(kind):
     import static_frame as sf
-    idx, col, inc = KIND_CFG[kind]
-    return sf.StoreConfig(index_depth=idx, columns_depth=col, include_index=inc, include_columns=True)
+    idx, col, inc, incc = KIND_CFG[kind]
+    return sf.StoreConfig(index_depth=idx, columns_depth=col, include_index=inc, include_columns=incc)
 
 
 class Env:
@@ -667,8 +682,11 @@ def op_coq(op):
         return 'oValues'
     if k in ('keys', 'iter'):
         return 'oKeys'
-    if k == 'status':
+    if k in ('status', 'describe', 'dtypes'):
         return 'oStatus'
+    if k in ('rename', 'roll'):
+        # a derived Bus over the same slots: the same labels (rename) or the labels rotated with their values (roll, include_index=True)
+        return f'oReindex {lit.lst([str(_rank(x)) for x in op[1]])} {lit.b(op[2])}'
     if k == 'get':
         return f'oGet {_rank(op[1])}'
     if k == 'iter_element':
@@ -708,6 +726,15 @@ def op_desc(op):
         return 'list(bus.keys())'
     if k == 'iter':
         return 'list(iter(bus))'
+    if k == 'describe':
+        return ('bus.shapes, .nbytes, .mloc, .status, .index, .name, .shape, .size, .ndim, .dtype, len(), reversed(), `in`, repr() '
+                '-- none of them may load anything')
+    if k == 'dtypes':
+        return 'bus.dtypes -- must not load anything'
+    if k == 'rename':
+        return "bus.rename('renamed')" + (' -> continue on the result' if op[2] else '')
+    if k == 'roll':
+        return f'bus.roll({op[3]}, include_index=True)' + (' -> continue on the result' if op[2] else '')
     if k == 'status':
         return "bus.status['loaded']"
     if k == 'get':
@@ -770,6 +797,48 @@ def _check_against_eager(env, f):
             pass
 
 
+def _describe(env, bus):
+    """The descriptors that must not load anything and must agree with the loaded flags and the Frames written."""
+    import numpy as np
+    import static_frame as sf
+    fails = env.class_fail
+    labels = [str(l) for l in bus.keys()]
+    before = _flags(bus)
+    want_shape = {l: env.frames[l].shape for l in labels if l in env.frames}
+    shapes = bus.shapes
+    if [str(l) for l in shapes.index] != labels or any((sh is not None) != ld or (ld and tuple(sh) != want_shape[l])
+                                                       for l, sh, ld in zip(labels, shapes.values.tolist(), before)):
+        fails.append(f'shapes {shapes.values.tolist()} disagree with the loaded flags {before} / the shapes written')
+    mloc = bus.mloc
+    if any((m is not None) != ld for m, ld in zip(mloc.values.tolist(), before)):
+        fails.append(f'mloc {mloc.values.tolist()} disagrees with the loaded flags {before}')
+    loaded_frames = [f for f in bus._series.values if isinstance(f, sf.Frame)] if hasattr(bus, '_series') else None
+    if loaded_frames is not None and bus.nbytes != sum(f.nbytes for f in loaded_frames):
+        fails.append(f'nbytes {bus.nbytes} is not the sum over the loaded Frames')
+    st = bus.status
+    if st.shape != (len(labels), 4) or [str(c) for c in st.columns] != ['loaded', 'size', 'nbytes', 'shape']:
+        fails.append(f'status has shape {st.shape} columns {list(st.columns)}')
+    else:
+        for l, ld, size, nb, sh in zip(labels, st['loaded'].values.tolist(), st['size'].values.tolist(), st['nbytes'].values.tolist(),
+                                       st['shape'].values.tolist()):
+            if ld and (size != env.frames[l].size or tuple(sh) != want_shape[l] or not nb > 0):
+                fails.append(f'status row of loaded {l}: size {size} nbytes {nb} shape {sh}')
+            if not ld and not (size != size and nb != nb and sh is None):
+                fails.append(f'status row of unloaded {l}: size {size} nbytes {nb} shape {sh}')
+    if [str(l) for l in bus.index] != labels or [str(l) for l in reversed(bus)] != labels[::-1]:
+        fails.append('index / reversed() disagree with keys()')
+    if len(bus) != len(labels) or bus.shape != (len(labels),) or bus.size != len(labels) or bus.ndim != 1 or bus.dtype != np.dtype(object):
+        fails.append(f'len/shape/size/ndim/dtype: {len(bus)} {bus.shape} {bus.size} {bus.ndim} {bus.dtype}')
+    if any(l not in bus for l in labels) or UNKNOWN_LABEL in bus:
+        fails.append('`in` disagrees with keys()')
+    text = repr(bus)
+    if any(l not in text for l in labels):
+        fails.append('repr() does not show every label')
+    after = _flags(bus)
+    if after != before:
+        fails.append(f'a descriptor loaded or dropped Frames: flags {before} -> {after}')
+
+
 def _bus_obs(bus):
     return ('bus', [_rank(l) for l in bus.keys()], _flags(bus))
 
@@ -800,6 +869,26 @@ def apply_op(env, bus, op):
         return ('labels', [_rank(l) for l in bus.keys()]), bus
     if k == 'iter':
         return ('labels', [_rank(l) for l in iter(bus)]), bus
+    if k == 'describe':
+        _describe(env, bus)
+        return ('flags', _flags(bus)), bus
+    if k == 'dtypes':
+        before = _flags(bus)
+        labels = [str(l) for l in bus.keys()]
+        dt = bus.dtypes
+        if [str(l) for l in dt.index] != labels:
+            env.class_fail.append(f'dtypes index {list(dt.index)} is not the labels {labels}')
+        if _flags(bus) != before:
+            env.class_fail.append(f'dtypes loaded or dropped Frames: flags {before} -> {_flags(bus)}')
+        return ('flags', _flags(bus)), bus
+    if k == 'rename':
+        r = bus.rename('renamed')
+        if r.name != 'renamed':
+            env.class_fail.append(f'rename: the derived Bus is named {r.name!r}')
+        return _bus_obs(r), (r if op[2] else bus)
+    if k == 'roll':
+        r = bus.roll(op[3], include_index=True)
+        return _bus_obs(r), (r if op[2] else bus)
     if k == 'status':
         return ('flags', _flags(bus)), bus
     if k == 'get':
@@ -872,6 +961,7 @@ def _logging_store(store, log):
 def run_history(env, mp, ops, kernel=False, online=None):
     """Run a history on the implementation. ops: a list, or with online=fn(step, bus, labels) a generator of the
     next operation from the current labels.  Returns (ops, trace); a trace entry is (obs, flags[, la, log])."""
+    env.class_fail = []                               # Python-side observations of THIS history (class / descriptor checks)
     bus = env.open(mp)
     log = []
     if kernel:
@@ -945,6 +1035,8 @@ def history_case(kind, env, mp, ops, trace, kernel=False, tags=None, nontrivial=
         desc['observed_private'] = [{'_last_accessed': t[2], 'store reads': t[3]} for t in trace]
     if extra:
         desc.update(extra)
+    if py_fail is None and getattr(env, 'class_fail', None):
+        py_fail = f'{env.class_fail[0]} ({len(env.class_fail)} such observations)'
     return Case(kind, desc, m=m, s=s, py_fail=py_fail, tags=dict(tags or {}), nontrivial=nontrivial)
 
 
@@ -1054,8 +1146,8 @@ def roundtrip_label_cases(ctx, work):
                     frames = [make_frame(k, l, v, rng) for k, l, v in zip(kinds, labels, keys)]
 
                     def mk(kind):
-                        idx, col, inc = KIND_CFG[kind]
-                        return sf.StoreConfig(index_depth=idx, columns_depth=col, include_index=inc, include_columns=True,
+                        idx, col, inc, incc = KIND_CFG[kind]
+                        return sf.StoreConfig(index_depth=idx, columns_depth=col, include_index=inc, include_columns=incc,
                                               label_encoder=enc, label_decoder=dec)
                     if fmt == 'zip_pickle':
                         cfg = None if enc is None else sf.StoreConfig(label_encoder=enc, label_decoder=dec)
@@ -1168,9 +1260,11 @@ class RandomHistory:
             return None
         rng, n = self.rng, len(cur)
         menu = ['sel'] * 10 + ['values', 'items', 'values', 'items', 'keys', 'iter', 'status', 'sort_index', 'sort_index',
-                               'head', 'tail', 'iter_element', 'iter_element_items']
+                               'head', 'tail', 'iter_element', 'iter_element_items', 'describe', 'describe', 'rename']
+        if len({KIND_CFG[k][1] for k in self.env.kinds.values()}) == 1:
+            menu.append('dtypes')          # Bus.dtypes over Frames of different column depth: known finding, its own stratum
         if n:
-            menu += ['drop', 'drop', 'reindex', 'reindex', 'sort_values', 'sort_values', 'get', 'get']
+            menu += ['drop', 'drop', 'reindex', 'reindex', 'sort_values', 'sort_values', 'get', 'get', 'roll', 'roll']
         k = rng.choice(menu)
         into = rng.random() < .3
         if self.count:
@@ -1196,6 +1290,12 @@ class RandomHistory:
             return ('sort_values', rng.random() < .5, into)
         if k == 'get':
             return ('get', rng.choice(cur + [UNKNOWN_LABEL]))
+        if k == 'rename':
+            return ('rename', list(cur), into)
+        if k == 'roll':
+            sh = rng.randrange(-n - 1, n + 2)
+            kk = sh % n
+            return ('roll', (cur[-kk:] + cur[:-kk]) if kk else list(cur), into, sh)
         return (k,)
 
 
@@ -1500,7 +1600,7 @@ def wide_slice_cases(ctx, work):
     for j, (n, mp, pre, sl) in enumerate(combos):
         fmt = FORMATS[j % len(FORMATS)]
         if (n, fmt) not in envs:
-            kinds = uniform_kinds(rng, n, fmt, cls=(1, 1, True))
+            kinds = uniform_kinds(rng, n, fmt, cls=(1, 1, True, True))
             envs[(n, fmt)] = Env(work.tmp, work.name('ws'), fmt, [_label(r) for r in range(n)], kinds, False, rng)
         env = envs[(n, fmt)]
         into = rng.random() < .25                       # sometimes go on reading from the derived Bus instead
@@ -1584,13 +1684,192 @@ def pickle_class_cases(ctx, work):
         os.path.exists(env.backup) and os.remove(env.backup)
 
 
+# ---------------------------------------------------------------------------------- Bus(series, store=, max_persist=): __init__ itself
+def init_cases(ctx, work):
+    """The public constructor on a Series that already holds some Frames (the others FrameDeferred): refused with ErrorInitBus
+    exactly when more are held than max_persist allows (bus.py:336); otherwise the Bus goes on serving the right Frames and
+    evicts the held ones in index order.  Also the two other refusals of __init__: a non-object Series, a value that is neither."""
+    import static_frame as sf
+    from static_frame.core.bus import FrameDeferred
+    from static_frame.core.store_zip import StoreZipPickle, StoreZipCSV, StoreZipTSV
+    from static_frame.core.store_sqlite import StoreSQLite
+    store_cls = {'zip_pickle': StoreZipPickle, 'zip_csv': StoreZipCSV, 'zip_tsv': StoreZipTSV, 'sqlite': StoreSQLite}
+    rng = ctx.rng
+    for i in range(ctx.n(60, 800)):
+        fmt = FORMATS[i % len(FORMATS)]
+        env = random_env(rng, work, fmt, n=rng.randrange(2, 6), mapped=False, stem='in')
+        n = len(env.order)
+        held = [rng.random() < .5 for _ in range(n)]
+        mp = rng.choice([None, 1, 2, 3, n])
+        values = [env.frames[l] if h else FrameDeferred for l, h in zip(env.order, held)]
+        series = sf.Series(values, index=env.order, dtype=object)
+        env.class_fail = []
+        trace, ops = [], []
+        try:
+            bus = sf.Bus(series, store=store_cls[fmt](env.fp), config=env.cfg, max_persist=mp)
+        except Exception as e:  # noqa
+            bus = None
+            trace.append((('err', lit.err_class(e)), []))
+        if bus is not None:
+            trace.append((('unit',), _flags(bus)))
+            inner = RandomHistory(rng, env, mp, rng.randrange(2, 8))
+            step = 0
+            while True:
+                op = inner(step, [str(l) for l in bus.keys()])
+                if op is None:
+                    break
+                step += 1
+                ops.append(op)
+                try:
+                    ob, bus = apply_op(env, bus, op)
+                except Exception as e:  # noqa
+                    ob = ('err', lit.err_class(e))
+                trace.append((ob, _flags(bus)))
+        if i % 10 == 0:
+            # the other refusals of __init__
+            for bad, what in ((sf.Series([1] * n, index=env.order), 'a Series that is not of dtype object'),
+                              (sf.Series([env.frames[env.order[0]]] + [3] * (n - 1), index=env.order, dtype=object), 'a value that is no Frame')):
+                try:
+                    sf.Bus(bad, store=store_cls[fmt](env.fp))
+                    env.class_fail.append(f'Bus() accepted {what}')
+                except sf.ErrorInitBus:
+                    pass
+                except Exception as e:  # noqa
+                    env.class_fail.append(f'Bus() on {what} raised {type(e).__name__}, not ErrorInitBus')
+        ctx.count(f'init:held={sum(held)}', f'init:mp={mp}', 'init:refused' if bus is None else 'init:accepted')
+        labels_lit = lit.lst([str(_rank(l)) for l in env.order])
+        args = f'{env.content_lit()} {T0} {labels_lit}'
+        tail = f'{mp_coq(mp)} {env.keytbl_lit()} {lit.lst([op_coq(o) for o in ops])}'
+        slots_lit = lit.lst([_slot_lit(env.fid[l] if h else None) for l, h in zip(env.order, held)])
+        yield Case('api:init', {'store': env.describe(), 'held before': held, 'max_persist': mp,
+                                'call': f'sf.Bus(Series of Frames/FrameDeferred, store=Store(fp), max_persist={mp})',
+                                'history': [op_desc(o) for o in ops],
+                                'observed': [obs_coq(t[0]) + ' loaded=' + ''.join('1' if x else '0' for x in t[1]) for t in trace]},
+                   m=f'z_trace_eqb (z_m_run_init {args} {slots_lit} {tail}) {trace_coq(trace)}',
+                   s=f'z_trace_eqb (z_s_run_init {args} {lit.lst([lit.b(h) for h in held])} {tail}) {trace_coq(trace)}',
+                   py_fail=(env.class_fail[0] if env.class_fail else None),
+                   tags={'stratum': 'init', 'format': fmt, 'mp': mp}, nontrivial=mp is not None)
+
+
+# ---------------------------------------------------------------------------------- constructors, library-derived configurations, worker pools, equals
+def constructor_cases(ctx, work):
+    """Round trips through the other public routes: Bus.from_items / from_dict / from_frames; the configuration DERIVED by the
+    library (StoreConfigMap.from_frames, StoreConfig.from_frame) incl. Frames without column labels and without any labels;
+    zip stores written and read through worker pools (read_max_workers / write_max_workers, chunk sizes); Bus.equals between
+    two Buses over the same store with different max_persist (and against a store with one Frame changed)."""
+    import static_frame as sf
+    from static_frame.core.store import StoreConfigMap
+    rng = ctx.rng
+    routes = [(fmt, ctor, form) for fmt in FORMATS for ctor in ('from_frames', 'from_items', 'from_dict')
+              for form in ('map.from_frames', 'config.from_frame', 'workers')]
+    for rep_ in range(ctx.n(1, 6)):
+        for fmt, ctor, form in routes:
+            if form == 'workers' and fmt == 'sqlite':
+                continue
+            n = rng.randrange(2, 6)
+            labels = rng.sample([_label(r) for r in range(9)], n)
+            if form == 'map.from_frames':
+                kinds = [rng.choice(kinds_pool(fmt)) for _ in range(n)]
+            else:
+                kinds = uniform_kinds(rng, n, fmt)
+            frames = [make_frame(k, l, v, rng) for k, l, v in zip(kinds, labels, rng.sample(range(-40, 40), n))]
+            if form == 'map.from_frames':
+                cfg = StoreConfigMap.from_frames(frames)
+            elif form == 'config.from_frame':
+                cfg = sf.StoreConfig.from_frame(frames[0])
+            else:
+                idx, col, inc, incc = KIND_CFG[kinds[0]]
+                cfg = sf.StoreConfig(index_depth=idx, columns_depth=col, include_index=inc, include_columns=incc,
+                                     read_max_workers=2, read_chunksize=rng.choice([1, 2]), write_max_workers=2,
+                                     write_chunksize=rng.choice([1, 2]))
+            if fmt == 'zip_pickle' and form != 'workers':
+                cfg = None
+            fp = os.path.join(work.tmp, work.name('ct') + EXT[fmt])
+            mp = rng.choice([None, 1, 2, n])
+            py_fail, got_labels, read_lit, labels_lit = None, [], '[]', '[]'
+            try:
+                if ctor == 'from_frames':
+                    bus = sf.Bus.from_frames(frames, config=cfg)
+                elif ctor == 'from_items':
+                    bus = sf.Bus.from_items(zip(labels, frames), config=cfg)
+                else:
+                    bus = sf.Bus.from_dict(dict(zip(labels, frames)), config=cfg)
+                getattr(bus, 'to_' + fmt)(fp)                      # the Bus's own configuration is used
+                kw = {} if cfg is None else {'config': cfg}
+                back = getattr(sf.Bus, 'from_' + fmt)(fp, max_persist=mp, **kw)
+                got_labels = [str(l) for l in back.keys()]
+                labels_lit = lit.vlist(got_labels)
+                read_lit = lit.lst([lit.oframe(f) for _, f in back.items()])
+                # equals: the same store through another Bus with another max_persist; then one Frame changed
+                other = getattr(sf.Bus, 'from_' + fmt)(fp, max_persist=rng.choice([None, 1, 2]), **kw)
+                if not back.equals(other, compare_name=True, compare_dtype=True):
+                    py_fail = 'Bus.equals is False for two Buses over the same store'
+                elif mp is not None and sum(_flags(back)) > mp:
+                    py_fail = f'after equals {sum(_flags(back))} Frames are loaded with max_persist={mp}'
+                else:
+                    changed = sf.Bus.from_frames([frames[0].rename(labels[0]) if j else make_frame(kinds[0], labels[0], 99, rng)
+                                                  for j, _ in enumerate(frames)][:1] + frames[1:])
+                    if back.equals(changed):
+                        py_fail = 'Bus.equals is True although one Frame differs'
+                    elif back.equals(changed.iloc[:n - 1]) if n > 1 else False:
+                        py_fail = 'Bus.equals is True for Buses of different length'
+                    elif not back.equals(back) or back.equals(3) or back.equals(back._series if hasattr(back, '_series') else 3, compare_class=True):
+                        py_fail = 'Bus.equals: identity / non-Bus operand answered wrongly'
+                    elif back.equals(back.rename('other name'), compare_name=True) or not back.equals(back.rename('other name')):
+                        py_fail = 'Bus.equals: compare_name answered wrongly'
+                    elif n > 1 and back.equals(back.roll(1, include_index=True)):
+                        py_fail = 'Bus.equals is True for a Bus with the labels in another order'
+                    else:
+                        # StoreConfigMap refuses what it cannot use (store.py:363-386)
+                        good = sf.StoreConfig(index_depth=1)
+                        for bad_args, what in ((dict(default=3), 'a default that is no StoreConfig'),
+                                               (dict(config_map={'a': 3}), 'an entry that is no StoreConfig'),
+                                               (dict(config_map={'a': sf.StoreConfig(read_max_workers=3)}, default=good),
+                                                'an entry whose worker settings differ from the default')):
+                            try:
+                                StoreConfigMap(bad_args.get('config_map'), default=bad_args.get('default'))
+                                py_fail = f'StoreConfigMap accepted {what}'
+                            except sf.ErrorInitStoreConfig:
+                                pass
+            except Exception as e:  # noqa
+                py_fail = f'{type(e).__name__}: {e}'
+            finally:
+                os.path.exists(fp) and os.remove(fp)
+            ctx.count(f'constructor:{ctor}', f'constructor:{form}', f'constructor:{fmt}')
+            term = f'rt_ok {lit.vlist(labels)} {labels_lit} {lit.lst([lit.oframe(f) for f in frames])} {read_lit}'
+            yield Case('api:constructors',
+                       {'format': fmt, 'constructor': f'Bus.{ctor}', 'configuration': form, 'labels': labels, 'kinds': kinds,
+                        'max_persist': mp, 'labels_read': got_labels,
+                        'call': f'Bus.{ctor}(..., config=cfg).to_{fmt}(fp); Bus.from_{fmt}(fp, config=cfg, max_persist).items(); .equals(...)'},
+                       m=term, s=term, py_fail=py_fail,
+                       tags={'stratum': 'constructors', 'format': fmt, 'ctor': ctor, 'form': form})
+
+
+def dtypes_finding_cases(ctx, work):
+    """KNOWN FINDING C17-dtypes-mixed-column-depth: Bus.dtypes raises once Frames with column indexes of different depth are loaded."""
+    rng = ctx.rng
+    for i in range(ctx.n(3, 20)):
+        fmt = FORMATS[i % len(FORMATS)]
+        order = rng.sample([_label(r) for r in range(8)], 3)
+        kinds = ['ih_cols', rng.choice(['str_idx', 'mixed', 'one']), rng.choice(kinds_pool(fmt))]     # by construction: depths 2 and 1
+        rng.shuffle(kinds)
+        env = Env(work.tmp, work.name('dt'), fmt, order, kinds, fmt != 'zip_pickle', rng)
+        ops, trace = run_history(env, None, [('values',), ('dtypes',)])
+        ctx.count('finding:dtypes-mixed-column-depth')
+        yield history_case('finding:dtypes-mixed-depth', env, None, ops, trace,
+                           tags={'finding': 'C17-dtypes-mixed-column-depth', 'format': fmt})
+
+
 def cases(ctx):
     work = Work()
     try:
         yield from regression_cases(ctx, work)
+        yield from dtypes_finding_cases(ctx, work)
         yield from store_reader_cases(ctx)
         yield from roundtrip_cases(ctx, work)
         yield from roundtrip_label_cases(ctx, work)
+        yield from constructor_cases(ctx, work)
+        yield from init_cases(ctx, work)
         yield from malformed_cases(ctx, work)
         yield from wide_slice_cases(ctx, work)
         yield from pickle_class_cases(ctx, work)
